@@ -1,6 +1,6 @@
 (* The comparison functions that the correspondence engine evaluates on harness output
    (extracted to OCaml for volume; the same definitions run under vm_compute for the cross-check). *)
-From AidlV Require Export Run.Sx Model.Validation Spec.Master.
+From AidlV Require Export Run.Sx Model.Validation Spec.Master Spec.Nodes Model.ParserState.
 
 (* verdicts: 0 = holds, 1 = fails, 2 = the harness output could not be decoded, 3 = unknown check *)
 Definition run_bool {X} (d : sx -> option X) (f : X -> bool) (s : sx) : N :=
@@ -147,6 +147,198 @@ Definition spec_C10 (c : list file_result * list file_result) : bool :=
     multiset_eqb diag_eqb (filter (is_c10 a') ds)
       (spec_redundant (ai_item a) ++ flat_map spec_return (methods_of (ai_item a')))) c.
 
+(* ------------------------------------------------------------------ C15 / C16 / C17: traversal *)
+Record fpr := FP { fp_tag : N; fp_name : option str; fp_qname : option str; fp_range : range; fp_full : range }.
+Definition fp_of (s : symbol) : fpr := FP (sym_tag s) (sym_name s) (sym_qname s) (sym_range s) (sym_full s).
+Definition fp_eqb (a b : fpr) : bool :=
+  N.eqb (fp_tag a) (fp_tag b) && ostr_eqb (fp_name a) (fp_name b) && ostr_eqb (fp_qname a) (fp_qname b) &&
+  range_eqb (fp_range a) (fp_range b) && range_eqb (fp_full a) (fp_full b).
+Definition d_fp (s : sx) : option fpr :=
+  match s with
+  | L [A t; n; q; r; f] => do n' <- d_ostr n; do q' <- d_ostr q; do r' <- d_rng r; do f' <- d_rng f; Some (FP t n' q' r' f')
+  | _ => None
+  end.
+Definition d_filter (s : sx) : option sfilter :=
+  match s with A 0 => Some FItemsOnly | A 1 => Some FItemsAndElements | A 2 => Some FAll | _ => None end.
+
+Record tblock := TB {
+  tb_filter : sfilter; tb_walk : list fpr;
+  tb_kind : list (N * list fpr * option fpr);
+  tb_name : list (str * list fpr * option fpr);
+  tb_kth : list (option fpr) }.
+Definition d_triple {X} (dx : sx -> option X) (s : sx) : option (X * list fpr * option fpr) :=
+  match s with L [k; l; o] => do k' <- dx k; do l' <- d_list d_fp l; do o' <- d_opt d_fp o; Some (k', l', o') | _ => None end.
+Definition d_tblock (s : sx) : option tblock :=
+  match s with
+  | L [f; w; bk; bn; kth] =>
+      do f' <- d_filter f; do w' <- d_list d_fp w; do bk' <- d_list (d_triple d_N) bk;
+      do bn' <- d_list (d_triple d_str) bn; do kth' <- d_list (d_opt d_fp) kth;
+      Some (TB f' w' bk' bn' kth')
+  | _ => None
+  end.
+Record tcase := TC { tc_ast : aidl; tc_blocks : list tblock; tc_types : list ty; tc_methods : list range;
+                     tc_args : list (range * range) }.
+Definition d_tcase (s : sx) : option tcase :=
+  match s with
+  | L [a; bs; ts; ms; ar] =>
+      do a' <- d_aidl a; do bs' <- d_list d_tblock bs; do ts' <- d_list d_ty ts; do ms' <- d_list d_rng ms;
+      do ar' <- d_list (d_pair d_rng d_rng) ar; Some (TC a' bs' ts' ms' ar')
+  | _ => None
+  end.
+
+Definition has_tag (k : N) (s : symbol) : bool := N.eqb (sym_tag s) k.
+Definition has_name (n : str) (s : symbol) : bool := ostr_eqb (sym_name s) (Some n).
+Definition ofp_eqb := option_eqb fp_eqb.
+Definition fps_eqb := list_eqb fp_eqb.
+(* the predicate "is the k-th visited symbol" (a counter in the closure) *)
+Definition kth_pred (k : N) (n : N) (_ : symbol) : N * bool := (N.succ n, N.eqb n k).
+
+(* compare one block with a triple of functions (collect, filter, find, find with counter) *)
+Definition block_ok (collect : sfilter -> aidl -> list symbol)
+           (filt : sfilter -> (symbol -> bool) -> aidl -> list symbol)
+           (findf : (symbol -> bool) -> sfilter -> aidl -> option symbol)
+           (findk : N -> sfilter -> aidl -> option symbol)
+           (a : aidl) (b : tblock) : bool :=
+  let flt := tb_filter b in
+  fps_eqb (tb_walk b) (map fp_of (collect flt a)) &&
+  forallb (fun '(k, l, o) => fps_eqb l (map fp_of (filt flt (has_tag k) a)) &&
+                             ofp_eqb o (option_map fp_of (findf (has_tag k) flt a))) (tb_kind b) &&
+  forallb (fun '(n, l, o) => fps_eqb l (map fp_of (filt flt (has_name n) a)) &&
+                             ofp_eqb o (option_map fp_of (findf (has_name n) flt a))) (tb_name b) &&
+  Nat.eqb (length (tb_kth b)) (S (length (tb_walk b))) &&
+  (fix go (k : N) (l : list (option fpr)) : bool :=
+     match l with
+     | [] => true
+     | o :: l' => ofp_eqb o (option_map fp_of (findk k flt a)) && go (N.succ k) l'
+     end) 0 (tb_kth b).
+
+Definition walkers_ok (c : tcase) : bool :=
+  let a := tc_ast c in
+  list_eqb ty_eqb (tc_types c) (all_types (ai_item a)) &&
+  list_eqb range_eqb (tc_methods c) (map m_full (methods_of (ai_item a))) &&
+  list_eqb (fun x y => range_eqb (fst x) (fst y) && range_eqb (snd x) (snd y)) (tc_args c)
+           (flat_map (fun m => map (fun x => (m_full m, a_full x)) (m_args m)) (methods_of (ai_item a))).
+
+(* against the model of traverse.rs *)
+Definition corr_C15 (c : tcase) : bool :=
+  Nat.eqb (length (tc_blocks c)) 3 &&
+  forallb (block_ok walk_collect filter_symbols find_symbol
+                    (fun k flt a => find_symbol_st (kth_pred k) flt a 0) (tc_ast c)) (tc_blocks c) &&
+  walkers_ok c.
+(* against the plain node list of Spec/Nodes.v *)
+Definition spec_C15 (c : tcase) : bool :=
+  Nat.eqb (length (tc_blocks c)) 3 &&
+  forallb (block_ok symbols (fun flt p a => filter p (symbols flt a)) (fun p flt a => find p (symbols flt a))
+                    (fun k flt a => nth_error (symbols flt a) (N.to_nat k)) (tc_ast c)) (tc_blocks c) &&
+  walkers_ok c &&
+  (* source order: full-range starts never decrease along the detailed walk (array type nodes, which by
+     the statement come after their element type, are left out of the comparison) *)
+  (fix inc (l : list symbol) : bool :=
+     match l with
+     | x :: ((y :: _) as l') => N.leb (p_off (r_start (sym_full x))) (p_off (r_start (sym_full y))) && inc l'
+     | _ => true
+     end) (filter (fun s => match s with SType t => negb (tkind_eqb (ty_kind t) KArray) | _ => true end)
+                  (symbols FAll (tc_ast c))).
+
+(* C17 on the same lines: names and qualified names as the statement words them *)
+Definition spec_C17_names (c : tcase) : bool :=
+  let a := tc_ast c in
+  forallb (fun b =>
+    match tb_filter b with
+    | FAll =>
+        Nat.eqb (length (tb_walk b)) (length (symbols FAll a)) &&
+        forallb (fun '(fp, s) =>
+          match s with
+          | SInterface _ _ | SParcelable _ _ | SEnum _ _ =>
+              ostr_eqb (fp_qname fp) (Some (get_key a)) && ostr_eqb (fp_name fp) (Some (item_name (ai_item a)))
+          | SType t => ostr_eqb (fp_qname fp) (match ty_kind t with KResolved k _ => Some k | _ => None end)
+          | SMethod m i => ostr_eqb (fp_qname fp) (Some (i_name i ++ lit "::" ++ m_name m)) && ostr_eqb (fp_name fp) (Some (m_name m))
+          | SConst x o => ostr_eqb (fp_qname fp) (Some (item_name (ai_item a) ++ lit "::" ++ c_name x)) && ostr_eqb (fp_name fp) (Some (c_name x))
+          | SField x p => ostr_eqb (fp_qname fp) (Some (pc_name p ++ lit "::" ++ f_name x)) && ostr_eqb (fp_name fp) (Some (f_name x))
+          | SEnumElement x e => ostr_eqb (fp_qname fp) (Some (e_name e ++ lit "::" ++ ee_name x)) && ostr_eqb (fp_name fp) (Some (ee_name x))
+          | SArg x _ => ostr_eqb (fp_name fp) (a_name x)
+          | SImport i => ostr_eqb (fp_qname fp) (Some (import_qname i))
+          | SPackage p => ostr_eqb (fp_qname fp) (Some (pk_name p))
+          end) (combine (tb_walk b) (symbols FAll a))
+    | _ => true
+    end) (tc_blocks c).
+
+(* C17 on V lines: every reference resolved to a defined item carries the key of a file that defines such an item *)
+Definition spec_C17_refs (c : list file_result * list file_result) : bool :=
+  let '(p, v) := c in
+  let trees := flat_map (fun fr => match fr_ast fr with Some a => [a] | None => [] end) v in
+  forallb (fun a =>
+    forallb (fun t =>
+      match ty_kind t with
+      | KResolved k ((RInterface | RParcelable | REnum) as rk) =>
+          existsb (fun b => str_eqb (get_key b) k && rkind_eqb (item_kind (ai_item b)) rk) trees
+      | _ => true
+      end) (all_types (ai_item a))) trees.
+
+(* C16: L lines *)
+Record lcase := LC { lc_ast : aidl; lc_blocks : list (sfilter * list (N * N * option fpr)) }.
+Definition d_lpos (s : sx) : option (N * N * option fpr) :=
+  match s with L [A l; A c; o] => do o' <- d_opt d_fp o; Some (l, c, o') | _ => None end.
+Definition d_lcase (s : sx) : option lcase :=
+  match s with
+  | L [a; bs] => do a' <- d_aidl a; do bs' <- d_list (d_pair d_filter (d_list d_lpos)) bs; Some (LC a' bs')
+  | _ => None
+  end.
+Definition corr_C16 (c : lcase) : bool :=
+  forallb (fun '(flt, ps) =>
+    forallb (fun '(l, col, o) => ofp_eqb o (option_map fp_of (find_symbol_at flt (lc_ast c) l col))) ps) (lc_blocks c).
+(* lexicographic containment, written independently of range_contains *)
+Definition lex_leb (l1 c1 l2 c2 : N) : bool := N.ltb l1 l2 || (N.eqb l1 l2 && N.leb c1 c2).
+Definition contains_lex (r : range) (l c : N) : bool :=
+  lex_leb (p_line (r_start r)) (p_col (r_start r)) l c && lex_leb l c (p_line (r_end r)) (p_col (r_end r)).
+Definition spec_C16 (c : lcase) : bool :=
+  forallb (fun '(flt, ps) =>
+    forallb (fun '(l, col, o) =>
+      ofp_eqb o (option_map fp_of (find (fun s => contains_lex (sym_range s) l col) (symbols flt (lc_ast c))))) ps)
+    (lc_blocks c).
+
+(* ------------------------------------------------------------------ C11: order of every file's diagnostics *)
+Definition spec_C11_sorted (c : list file_result * list file_result) : bool :=
+  forallb (fun fr =>
+    (fix inc (l : list diag) : bool :=
+       match l with
+       | x :: ((y :: _) as l') => N.leb (start_off x) (start_off y) && inc l'
+       | _ => true
+       end) (fr_diags fr)) (snd c).
+
+(* ------------------------------------------------------------------ C12: the key set follows the abstract map *)
+Inductive hop := HAdd (id c : str) | HRemove (id : str) | HValidate | HAddFile (p : str) (c : option str).
+Definition d_hop (s : sx) : option hop :=
+  match s with
+  | L [A 0; id; c] => do id' <- d_str id; do c' <- d_str c; Some (HAdd id' c')
+  | L [A 1; id] => do id' <- d_str id; Some (HRemove id')
+  | L [A 2] => Some HValidate
+  | L [A 3; p; c] => do p' <- d_str p; do c' <- d_opt d_str c; Some (HAddFile p' c')
+  | _ => None
+  end.
+Definition d_hcase := d_pair (d_list d_hop) (d_list (d_list d_str)).
+(* one op of the implementation's history as an op of Model/ParserState with the file system it saw *)
+Definition hop_step (a : astate) (h : hop) : astate :=
+  match h with
+  | HAdd id c => astep (fun _ => None) a (OAdd id c)
+  | HRemove id => astep (fun _ => None) a (ORemove id)
+  | HValidate => astep (fun _ => None) a OValidate
+  | HAddFile p c => astep (fun q => if str_eqb q p then c else None) a (OAddFile p)
+  end.
+Fixpoint insert_str (x : str) (l : list str) : list str :=
+  match l with [] => [x] | y :: l' => if str_ltb y x then y :: insert_str x l' else x :: l end.
+Definition sort_strs (l : list str) : list str := fold_right insert_str [] l.
+Definition corr_C12 (c : list hop * list (list str)) : bool :=
+  let '(ops, keys) := c in
+  Nat.eqb (length ops) (length keys) &&
+  (fix go (a : astate) (ops : list hop) (keys : list (list str)) : bool :=
+     match ops, keys with
+     | h :: ops', k :: keys' =>
+         let a' := hop_step a h in
+         list_eqb str_eqb (sort_strs (map fst a')) k && go a' ops' keys'
+     | _, _ => true
+     end) [] ops keys.
+
 Definition checks : list (string * (sx -> N)) :=
   [ ("corr_validate"%string, run_bool d_vcase corr_validate);
     ("corr_C09"%string, run_bool d_vcase corr_C09);
@@ -155,7 +347,12 @@ Definition checks : list (string * (sx -> N)) :=
     ("corr_C06"%string, run_bool d_vcase corr_C06); ("spec_C06"%string, run_bool d_vcase spec_C06);
     ("corr_C07"%string, run_bool d_vcase corr_C07); ("spec_C07"%string, run_bool d_vcase spec_C07);
     ("corr_C08"%string, run_bool d_vcase corr_C08); ("spec_C08"%string, run_bool d_vcase spec_C08);
-    ("corr_C10"%string, run_bool d_vcase corr_C10); ("spec_C10"%string, run_bool d_vcase spec_C10) ].
+    ("corr_C10"%string, run_bool d_vcase corr_C10); ("spec_C10"%string, run_bool d_vcase spec_C10);
+    ("corr_C15"%string, run_bool d_tcase corr_C15); ("spec_C15"%string, run_bool d_tcase spec_C15);
+    ("corr_C16"%string, run_bool d_lcase corr_C16); ("spec_C16"%string, run_bool d_lcase spec_C16);
+    ("spec_C17_names"%string, run_bool d_tcase spec_C17_names); ("spec_C17_refs"%string, run_bool d_vcase spec_C17_refs);
+    ("spec_C11_sorted"%string, run_bool d_vcase spec_C11_sorted);
+    ("corr_C12"%string, run_bool d_hcase corr_C12) ].
 
 Definition dispatch (name : str) (s : sx) : N :=
   match find (fun c => str_eqb (lit (fst c)) name) checks with
